@@ -424,10 +424,12 @@ func (c *conn) addClosed(fn func()) int64 {
 	c.closedListeners.Set(id, fn)
 	verifYield("listener.afterInsert")
 
-	// Check again if closed
+	// Check again if closed, fail only when the listener has not been taken by notifyClosed,
+	// otherwise it has been or will be called.
 	if c.closed.IsSet() {
-		c.closedListeners.Delete(id)
-		return 0
+		if _, ok := c.closedListeners.Delete(id); ok {
+			return 0
+		}
 	}
 	return id
 }
@@ -438,9 +440,19 @@ func (c *conn) removeClosed(id int64) {
 
 func (c *conn) notifyClosed() {
 	verifYield("notify.beforeRange")
-	c.closedListeners.Range(func(_ int64, fn func()) bool {
-		fn()
-		return true
-	})
-	c.closedListeners.Clear()
+	// Take listeners one by one, so that each is either called here, or deleted by addClosed.
+	// Repeat until no more listeners to catch the ones added concurrently.
+	for {
+		n := 0
+		c.closedListeners.Range(func(id int64, fn func()) bool {
+			if _, ok := c.closedListeners.Delete(id); ok {
+				n++
+				fn()
+			}
+			return true
+		})
+		if n == 0 {
+			return
+		}
+	}
 }
